@@ -97,27 +97,27 @@ type SexpStr struct {
 }
 
 func (r SexpStr) Type() *RegisteredType {
-	return GoStructRegistry.Registry["string"]
+	return GoStructRegistry.Builtin["string"]
 }
 
 func (r *SexpInt) Type() *RegisteredType {
-	return GoStructRegistry.Registry["int64"]
+	return GoStructRegistry.Builtin["int64"]
 }
 
 func (r *SexpUint64) Type() *RegisteredType {
-	return GoStructRegistry.Registry["uint64"]
+	return GoStructRegistry.Builtin["uint64"]
 }
 
 func (r *SexpFloat) Type() *RegisteredType {
-	return GoStructRegistry.Registry["float64"]
+	return GoStructRegistry.Builtin["float64"]
 }
 
 func (r *SexpBool) Type() *RegisteredType {
-	return GoStructRegistry.Registry["bool"]
+	return GoStructRegistry.Builtin["bool"]
 }
 
 func (r *SexpChar) Type() *RegisteredType {
-	return GoStructRegistry.Registry["int32"]
+	return GoStructRegistry.Builtin["int32"]
 }
 
 func (r *RegisteredType) Type() *RegisteredType {
@@ -165,7 +165,7 @@ type SexpError struct {
 }
 
 func (r *SexpError) Type() *RegisteredType {
-	return GoStructRegistry.Registry["error"]
+	return GoStructRegistry.Builtin["error"]
 }
 
 func (r *SexpSentinel) Type() *RegisteredType {
@@ -288,7 +288,7 @@ func (r *SexpArray) Type() *RegisteredType {
 			}
 		} else {
 			// empty array
-			r.Typ = GoStructRegistry.Lookup("[]")
+			r.Typ = GoStructRegistry.Builtin["[]"]
 			//P("lookup [] returned type %#v", r.Typ)
 		}
 	}
@@ -576,7 +576,7 @@ func (sym *SexpSymbol) SexpString(ps *PrintState) string {
 }
 
 func (r *SexpSymbol) Type() *RegisteredType {
-	return GoStructRegistry.Registry["symbol"]
+	return GoStructRegistry.Builtin["symbol"]
 }
 
 func (sym SexpSymbol) Name() string {
